@@ -326,10 +326,6 @@ def gen_doc_project(rng, knobs=None):
         d = g.doc(leaf=leaf)
         d["shared"] = len(ns)
         d["style"] = rng.randrange(4)
-        if d["style"] == 2 and d["kinds"] == ["oneline-colon"]:
-            # recorded finding: the blank line that closes a `!*` block adds an empty doc line, so the
-            # one-line special case of read_metadata does not protect the comment
-            d["region"] = "doc-oneline-colon-alt-block"
         for n in ns:
             expected[("variable", n, parent)] = d
         src.append(render_decl(f"{typ} :: {', '.join(ns)}", d, indent, d["style"]))
